@@ -58,9 +58,15 @@ PROPS["C20"] = dict(T(12000, 40, 800000, 900),
     note=NOTE + " Timing clauses use lower/upper bounds of the handler's internal time stamps taken by probes on either side of it, so they are necessary conditions (sound).",
     rule="Scenario: idle handlers on the synctest fake clock; message gaps relative to the idle time; Close after silence; panic injection on the k-th idle event.")
 
+PROPS["C07"] = dict(T(16000, 40, 1000000, 900), level="fault_enumeration",
+    text="One fault plan per run, drawn from the product of injection points (handler position x event kind x entry point: read loop, Channel.Write, Channel.Trigger, ctx.Write, ctx.Trigger, idle-timer callback) x panic value kind (error, string, runtime error, timeout and non-timeout net.Error) x exception-handler policies (forward/swallow/close per handler) x channel state (open, closing, closed), or a transport Write/Writev/Flush/Read failing at the k-th call; schedules sampled per plan. Oracle: no panic escapes into the calling task or kills an executor/timer task; while open, the exception visits the exception handlers once each in pipeline order up to the first that does not forward, carrying the panic value itself when it is an error; unconsumed => inactive with that value; sender write failure and unswallowed read failure => inactive with the transport error; a consumed fault leaves the channel usable (write + read round trip).",
+    note=NOTE + " Exception handlers that themselves panic are outside the property and not generated. The per-point counters in the evidence show which injection points were hit.",
+    technique="deterministic simulation with fault injection: seeded fault plans (handler panics, transport errors) x seeded schedules on the instrumented real code",
+    rule="Scenario: 1-4 probe handlers with per-handler exception policy; one injected panic or transport failure; distinct = distinct (fault plan, schedule).")
+
 NOT_APPLICABLE = {
     "C03": "Pipeline order and routing are pure functions of the build program and the event: the handler list is immutable after build and traversed by whichever goroutine delivers the event; no schedule, clock, fault or I/O behaviour enters. Simulation would only be relabelled input generation (DESIGN.md section 3, C03).",
     "C19": "pool.Pool adds no concurrency, time or I/O of its own: shard choice is arithmetic on sizes, mutual exclusion is entirely sync.Pool's, which the simulator has to replace by a stub, so simulated concurrent use would exercise the stub and not the repository (DESIGN.md section 3, C19).",
 }
-for _p in ["C04", "C07", "C08", "C09", "C14", "C15", "C16", "C17"]:
+for _p in ["C04", "C08", "C09", "C14", "C15", "C16", "C17"]:
     NOT_APPLICABLE.setdefault(_p, "check under construction in this session (planned as applicable, DESIGN.md section 3); not claimed until it runs clean")
